@@ -167,9 +167,13 @@ def all_cases(tier):
                                 for var in ("IC", "JP"):
                                     yield dict(base, kind="chan", chan="ext", NtE=NtE, pe=pe,
                                                var=var, int_layout=False)
-                        for cls in solvers:
-                            for fmode in FMODES:
-                                for wmode in WMODES:
+                        for ci, cls in enumerate(solvers):
+                            for fi, fmode in enumerate(FMODES):
+                                for wi, wmode in enumerate(WMODES):
+                                    # quick: the further solver classes (they inherit every SINR
+                                    # method) get one filter form per precoder mode
+                                    if not thorough and ci > 0 and wi != fi % 2:
+                                        continue
                                     yield dict(base, kind="solver", chan="plain", NtE=None, pe=None,
                                                cls=cls, fmode=fmode, wmode=wmode)
                         for i_, fmode in enumerate(FMODES_EXTRA):
@@ -179,9 +183,11 @@ def all_cases(tier):
                                        cls=solvers[0], fmode=fmode, wmode=WMODES[(i_ + 1) % 2])
                         # the solver bound to the external-interference channel (its API has no pe
                         # argument: the library default pe = 1 is the only power it can mean)
-                        for NtE in ntes:
-                            for fmode in FMODES:
-                                for wmode in WMODES:
+                        for ni, NtE in enumerate(ntes):
+                            for fi, fmode in enumerate(FMODES):
+                                for wi, wmode in enumerate(WMODES):
+                                    if not thorough and ni > 0 and wi != (fi + 1) % 2:
+                                        continue    # quick: further NtE get one filter form each
                                     yield dict(base, kind="solver", chan="ext", NtE=NtE, pe=None,
                                                cls=solvers[0], fmode=fmode, wmode=wmode)
 
@@ -1588,9 +1594,9 @@ def multi_objects(tier):
                ("setBoth", "b")]),
         # objects of the same class AND shape as A / C (what a cache keyed on shapes confuses)
         "D": (cfg("plain", None, [2, 2], [2, 2], [2, 1], 2), False,
-              [("pl", 2), ("touch", "IC"), ("touch", "solver")]),
+              [("pl", 2), ("touch", "IC")] + ([("touch", "solver")] if tier == "thorough" else [])),
         "E": (cfg("ext", 1, [2, 2], [2, 2], [2, 1], 3), False,
-              [("pl", 1), ("touch", "IC"), ("touch", "solver")]),
+              [("pl", 1), ("touch", "IC")] + ([("touch", "solver")] if tier == "thorough" else [])),
     }
     if tier == "thorough":
         objs["B"] = (cfg("ext", [1, 1], [2, 3], [3, 2], [1, 2], 0), False,
